@@ -3366,12 +3366,30 @@ impl PeerConnection {
         }
         let _ = self.inner.ice_transport.start_gathering();
         let mut rx = self.subscribe_ice_gathering_state();
+        // A connection that was closed (or whose ICE transport was stopped)
+        // will never finish gathering; do not leave the caller waiting forever.
+        let mut state_rx = self.subscribe_peer_state();
         loop {
             if *rx.borrow_and_update() == IceGatheringState::Complete {
                 return;
             }
-            if rx.changed().await.is_err() {
+            if matches!(
+                *state_rx.borrow_and_update(),
+                PeerConnectionState::Closed | PeerConnectionState::Failed
+            ) {
                 return;
+            }
+            tokio::select! {
+                r = rx.changed() => {
+                    if r.is_err() {
+                        return;
+                    }
+                }
+                r = state_rx.changed() => {
+                    if r.is_err() {
+                        return;
+                    }
+                }
             }
         }
     }
